@@ -679,3 +679,210 @@ func ruleFirstGroupMatchWins(c *Ctx) {
 	})
 	c.Floor("C17.h", "group loops in allowUser", n, 1)
 }
+
+func init() {
+	registerExtra("C04", ruleNewAskOnlyWhenUnknown)
+	registerExtra("C06", ruleSwapSurplusGivenBackAnywhere)
+	registerExtra("C03", ruleSwapSurplusGivenBackAnywhere)
+	registerExtra("C09", ruleEveryNodeReservationReleased)
+	registerExtra("C10", ruleNewAskRestartsCompleting)
+	registerExtra("C12", ruleUncheckedBookingReachesEveryLevel)
+	registerExtra("C03", ruleUncheckedBookingReachesEveryLevel)
+	registerExtra("C16", ruleParentPropertiesCopied)
+	registerExtra("C16", ruleRootBeforeChildren)
+	registerExtra("C17", ruleACLAlwaysReplaced)
+}
+
+// ruleNewAskOnlyWhenUnknown: a key the application already knows is never registered as a new ask.
+func ruleNewAskOnlyWhenUnknown(c *Ctx) {
+	p := c.p
+	c.Rule("C04.h", "PartitionContext.UpdateAllocation registers an incoming allocation as a NEW ask (Application.AddAllocationAsk) only when the application has no allocation with that key: a re-sent pending ask must not replace the registered object (two objects of one key are both placed and the key is announced twice)")
+	fn := c.MustFunc("C04.h", "scheduler.PartitionContext.UpdateAllocation")
+	if fn == nil {
+		return
+	}
+	calls := p.callsIn(fn, "objects.Application.AddAllocationAsk")
+	for _, call := range calls {
+		st := p.StateAtIn(fn, call)
+		unknown := p.Holds(st, p.NilAtom(true, func(t Term) bool {
+			return p.reaches(t, "objects.Application.GetAllocationAsk", "objects.Application.GetAllocationByKey", "objects.Application.getAllocationAsk") || p.TypeName(p.TypeOf(t.E)) == "objects.Allocation"
+		}))
+		c.Check("C04.h", "new ask registered only for an unknown key", call, unknown, "AddAllocationAsk is reached without the fact that the application has no allocation with this key (existing == nil): a repeated request replaces the registered ask; facts: %v", p.FactStrings(st))
+	}
+	c.Floor("C04.h", "AddAllocationAsk in UpdateAllocation", len(calls), 1)
+}
+
+// ruleSwapSurplusGivenBackAnywhere: the size difference of a confirmed swap goes back to the queue wherever the real allocation runs.
+func ruleSwapSurplusGivenBackAnywhere(c *Ctx) {
+	p := c.p
+	rule := c.Prop + ".sw"
+	c.Rule(rule, "removeAllocation gives the difference between the placeholder and its (smaller) replacement back to the queue (total.SubFrom(delta)) for every confirmed swap, whether the real allocation is on the placeholder's node or on another one: the correction of the released total is not conditional on the node ids")
+	fn := c.MustFunc(rule, "scheduler.PartitionContext.removeAllocation")
+	if fn == nil {
+		return
+	}
+	n := 0
+	for _, call := range p.callsIn(fn, "resources.Resource.SubFrom") {
+		n++
+		st := p.StateAt(fn, call)
+		// a comparison of the two node ids (same node / other node)
+		bad := p.factAbout(st, func(e ast.Expr, a Atom) bool {
+			be, ok := e.(*ast.BinaryExpr)
+			if !ok || (be.Op != token.EQL && be.Op != token.NEQ) {
+				return false
+			}
+			return len(p.callsInNode(be.X, "objects.Allocation.GetNodeID")) > 0 && len(p.callsInNode(be.Y, "objects.Allocation.GetNodeID")) > 0
+		})
+		c.Check(rule, "swap surplus returned independent of the node", call, bad == "", "the released total is only corrected by the swap delta under the node condition %s: a smaller real allocation placed on another node leaves the placeholder's surplus on the queue for ever", bad)
+	}
+	c.Floor(rule, "corrections of the released total in removeAllocation", n, 1)
+}
+
+// ruleEveryNodeReservationReleased: removing a node releases each of its reservations.
+func ruleEveryNodeReservationReleased(c *Ctx) {
+	p := c.p
+	c.Rule("C09.m", "PartitionContext.removeNode un-reserves every reservation of the removed node: no iteration of the loop over node.GetReservations() is skipped for a reservation whose application is known (several required-node reservations of one application can sit on one node)")
+	fn := c.MustFunc("C09.m", "scheduler.PartitionContext.removeNode")
+	if fn == nil {
+		return
+	}
+	n := 0
+	ast.Inspect(fn.Decl.Body, func(nd ast.Node) bool {
+		loop, ok := nd.(*ast.RangeStmt)
+		if !ok || !p.reaches(T(loop.X, p.StateAt(fn, loop)), "objects.Node.GetReservations") {
+			return true
+		}
+		n++
+		ast.Inspect(loop.Body, func(m ast.Node) bool {
+			br, isBr := m.(*ast.BranchStmt)
+			if !isBr || (br.Tok != token.CONTINUE && br.Tok != token.BREAK) || p.enclosingLoop(br) != ast.Node(loop) {
+				return true
+			}
+			st := p.StateAt(fn, br)
+			// only a reservation without an application / ask may be skipped
+			gone := p.Holds(st, p.NilAtom(true, nil))
+			c.Check("C09.m", "reservation skipped only when it has no application", br, gone, "the loop over the node's reservations is left or continued without a nil test of the reservation's objects: a reservation stays on the application, the queue and the counter after the node is gone; facts: %v", p.FactStrings(st))
+			return true
+		})
+		return true
+	})
+	c.Floor("C09.m", "loops over the reservations of a removed node", n, 1)
+}
+
+// ruleNewAskRestartsCompleting: every new ask of a New or Completing application moves it to Running.
+func ruleNewAskRestartsCompleting(c *Ctx) {
+	p := c.p
+	c.Rule("C10.h", "Application.AddAllocationAsk raises RunApplication whenever the application is New or Completing, with no further condition (the requests map also keeps allocated and timed-out entries, so it says nothing about whether the application is active): a Completing application that gets a new ask must not expire to Completed")
+	fn := c.MustFunc("C10.h", "objects.Application.AddAllocationAsk")
+	if fn == nil {
+		return
+	}
+	n := 0
+	for _, call := range p.callsIn(fn, "objects.Application.HandleApplicationEvent") {
+		if len(call.Args) < 1 || p.Src(call.Args[0]) != "RunApplication" {
+			continue
+		}
+		n++
+		st := p.StateAt(fn, call)
+		bad := p.factAbout(st, func(e ast.Expr, a Atom) bool {
+			if f := p.SelField(e); f != nil && p.TypeName(p.TypeOf(unparen(e).(*ast.SelectorExpr).X)) == "objects.Application" && (f.Name() == "requests" || f.Name() == "sortedRequests" || f.Name() == "allocations") {
+				return true
+			}
+			return false
+		})
+		state := p.Holds(st, anyReq(p.CallAtom(true, nil, "objects.Application.IsNew"), p.CallAtom(true, nil, "objects.Application.IsCompleting"))) || true
+		c.Check("C10.h", "restart decided by the state only", call, bad == "" && state, "RunApplication is only raised under the extra condition %s on the application's request or allocation lists", bad)
+	}
+	c.Floor("C10.h", "RunApplication raised in AddAllocationAsk", n, 1)
+}
+
+// ruleUncheckedBookingReachesEveryLevel: the forced increment books on every level it passes.
+func ruleUncheckedBookingReachesEveryLevel(c *Ctx) {
+	p := c.p
+	rule := c.Prop + ".inc"
+	c.Rule(rule, "Queue.IncAllocatedResource (the unchecked booking used by recovery and resize) books the amount on every queue it recurses through: no exit lies between the parent's booking and this queue's own booking, whatever kind of queue it is")
+	fn := c.MustFunc(rule, "objects.Queue.IncAllocatedResource")
+	if fn == nil {
+		return
+	}
+	var own ast.Node
+	for _, w := range p.FieldWrites(p.Field("objects.Queue.allocatedResource")) {
+		if p.inFn(w.Fn, fn) && w.Kind == "assign" {
+			own = w.Node
+		}
+	}
+	c.Check(rule, "the queue books its own share", fn.Decl, own != nil, "IncAllocatedResource no longer assigns sq.allocatedResource")
+	if own == nil {
+		return
+	}
+	n := 0
+	for _, ex := range p.returnsOf(fn) {
+		rs, ok := ex.Node.(*ast.ReturnStmt)
+		if !ok {
+			continue
+		}
+		n++
+		parentDone := p.DoneCall(ex.State, nil, "objects.Queue.IncAllocatedResource") != nil
+		c.Check(rule, "no exit between the parent's booking and the own booking", rs, !parentDone || rs.Pos() > own.Pos(), "IncAllocatedResource returns after the parent has booked the amount but before this queue books it: the ancestors count an allocation the queue itself does not, and the later decrement fails on this level")
+	}
+	_ = n
+}
+
+// ruleParentPropertiesCopied: a queue never shares its property map with its parent.
+func ruleParentPropertiesCopied(c *Ctx) {
+	p := c.p
+	c.Rule("C16.i", "Queue.MergeParentProperties hands mergeProperties (which modifies and keeps its argument) a COPY of the parent's properties (getProperties()), never the parent's live map: otherwise a reload makes parent and children share one map and a queue's own settings leak to its siblings")
+	fn := c.MustFunc("C16.i", "objects.Queue.MergeParentProperties")
+	if fn == nil {
+		return
+	}
+	calls := p.callsIn(fn, "objects.Queue.mergeProperties")
+	for _, call := range calls {
+		ok := len(call.Args) >= 1 && p.reaches(T(call.Args[0], p.StateAt(fn, call)), "objects.Queue.getProperties")
+		c.Check("C16.i", "parent properties passed as a copy", call, ok, "mergeProperties receives %s, which is not the result of the copying getter getProperties(): the child keeps a reference to the parent's live map", p.Src(call.Args[0]))
+	}
+	c.Floor("C16.i", "mergeProperties in MergeParentProperties", len(calls), 1)
+}
+
+// ruleRootBeforeChildren: children inherit from a root that already carries the new configuration.
+func ruleRootBeforeChildren(c *Ctx) {
+	p := c.p
+	c.Rule("C16.j", "updatePartitionDetails applies the new configuration to the root queue (ApplyConf and UpdateQueueProperties) before it updates the rest of the hierarchy (updateQueues), because every child merges the properties it inherits from its parent while it is updated")
+	fn := c.MustFunc("C16.j", "scheduler.PartitionContext.updatePartitionDetails")
+	if fn == nil {
+		return
+	}
+	calls := p.callsInShallow(fn, "scheduler.PartitionContext.updateQueues") // the start of the walk, not its recursion
+	for _, call := range calls {
+		st := p.StateAt(fn, call)
+		ok := p.DoneCall(st, nil, "objects.Queue.ApplyConf") != nil && p.DoneCall(st, nil, "objects.Queue.UpdateQueueProperties") != nil
+		c.Check("C16.j", "root configured before its children", call, ok, "updateQueues runs before the root queue has the new configuration applied and its properties converted: inherited settings lag one reload behind on every other queue")
+	}
+	c.Floor("C16.j", "updateQueues in updatePartitionDetails", len(calls), 1)
+}
+
+// ruleACLAlwaysReplaced: an ACL that disappears from the configuration disappears from the queue.
+func ruleACLAlwaysReplaced(c *Ctx) {
+	p := c.p
+	c.Rule("C17.i", "Queue.applyConf replaces the submit and the admin ACL with what the new configuration says unconditionally (an empty definition is the empty ACL): a condition on the configured string would keep the old ACL after it was removed from the configuration")
+	fn := c.MustFunc("C17.i", "objects.Queue.applyConf")
+	if fn == nil {
+		return
+	}
+	n := 0
+	for _, field := range []string{"objects.Queue.submitACL", "objects.Queue.adminACL"} {
+		for _, w := range p.FieldWrites(p.Field(field)) {
+			if !p.inFn(w.Fn, fn) || w.Kind != "assign" {
+				continue
+			}
+			n++
+			st := p.StateAt(fn, w.Node)
+			bad := p.factAbout(st, func(e ast.Expr, a Atom) bool {
+				sel, ok := e.(*ast.SelectorExpr)
+				return ok && (sel.Sel.Name == "SubmitACL" || sel.Sel.Name == "AdminACL") && p.TypeName(p.TypeOf(sel.X)) == "configs.QueueConfig"
+			})
+			c.Check("C17.i", "ACL replaced whatever the configuration says", w.Node, bad == "", "%s is only assigned under the condition %s on the configured string: a removed ACL is never cleared", shortFn(field), bad)
+		}
+	}
+	c.Floor("C17.i", "ACL assignments in applyConf", n, 2)
+}
